@@ -244,7 +244,7 @@ pub fn main_authz(args: &[String]) -> anyhow::Result<()> {
                                     "authorization" => tr = tr.insert_header(("Authorization", tok.to_string())),
                                     "bearer" => tr = tr.insert_header(("Authorization", format!("Bearer {}", tok))),
                                     "header" => tr = tr.insert_header(("accessToken", tok.to_string())),
-                                    "query" => uri = format!("{}?accessToken={}", uri, tok),
+                                    "query" => uri = format!("{}{}accessToken={}", uri, if uri.contains('?') { "&" } else { "?" }, tok),
                                     _ => tr = tr.insert_header(("Content-Type", "application/x-www-form-urlencoded")).set_payload(format!("accessToken={}", tok)),
                                 }
                             }
